@@ -162,6 +162,19 @@ Theorem C07_set_cookie_spec :
   set_cookie_header c = (HKnown H_SetCookie, cookie_text c) /\ hname_str (HKnown H_SetCookie) = Txt.s_set_cookie.
 Proof. exact set_cookie_spec_lemma. Qed.
 
+(* every header of the response is one complete line `CRLF name ": " value CRLF` of the output (no hypothesis), and
+   for a cookie added with with_cookie that line is "Set-Cookie: " followed by the text above *)
+Theorem C07_header_line :
+  forall (r : response) (h : header), In h (s_headers r) ->
+  exists pre post, serialize_response r = pre ++ CRLF ++ render_header h ++ CRLF ++ post.
+Proof. exact serialize_header_line. Qed.
+
+Theorem C07_cookie_line :
+  forall (r : response) (c : set_cookie), In (set_cookie_header c) (s_headers r) ->
+  exists pre post,
+    serialize_response r = pre ++ CRLF ++ Txt.s_set_cookie ++ [COLON; SP] ++ cookie_text c ++ CRLF ++ post.
+Proof. exact serialize_cookie_line. Qed.
+
 (* ---------------------------------------------------------------------------------------------------------------
    Non-vacuity: the hypotheses are satisfiable on non-trivial values, and the functions compute what one expects. *)
 Definition ex_cookie1 : set_cookie :=
@@ -238,6 +251,8 @@ Print Assumptions C07_parse_nobody.
 Print Assumptions C07_parse_chunked.
 Print Assumptions C07_parse_chunked_general.
 Print Assumptions C07_set_cookie_spec.
+Print Assumptions C07_header_line.
+Print Assumptions C07_cookie_line.
 Print Assumptions C07_example_cookie.
 Print Assumptions C07_example_wf.
 Print Assumptions C07_example_roundtrip.
